@@ -294,7 +294,7 @@ impl Prop for C14 {
         vec![
             "V8 (node 20) implements the specification's array algorithms for the generated operations; sort only with consistent comparators (default comparator only when ToString of the elements has no side effects); no implementation-defined text is printed (error names only)".into(),
             "known V8 deviations from the specification are avoided by guards inside the script (printed as 'v8-skip'): push() without items on a non-writable length; sort on length < 2 and toSorted on length 1; Object.isFrozen / Object.freeze of arrays whose writable length is the only unfrozen property; defineProperty on an element of a sealed object".into(),
-            "generator exclusions for recorded findings (labels excluded-*): `arr.length = v` by name (rendered as arr[LEN] = v), spread syntax while a prototype has an accessor/read-only index property, the Proxy variant for histories with for-in plus an enumerable Array.prototype element, delete/defineProperty of non-index keys after a named property was reconfigured".into(),
+            "generator exclusion for the open finding C14-e (label excluded-*): delete/defineProperty of non-index keys after a named property was reconfigured; the exclusions of the repaired findings C14-a..d (`arr.length = v` by name, spread syntax while a prototype has an accessor/read-only index property, the Proxy variant for histories with for-in plus an enumerable Array.prototype element) are switched off in genp::arr::Excl::default()".into(),
         ]
     }
     fn run_case(&self, env: &mut Env, _stream: &str, _index: u64, tape: &[u8]) -> CaseOut {
